@@ -66,7 +66,14 @@ class _BufferedLoadAndSave(_LoadAndSave):
 
     def __enter__(self):
         self._collection._buffer_lock.__enter__()
-        super().__enter__()
+        try:
+            super().__enter__()
+        except BaseException as error:
+            # See _LoadAndSave.__enter__: do not leak the lock on failure.
+            self._collection._buffer_lock.__exit__(
+                type(error), error, error.__traceback__
+            )
+            raise
 
     def __exit__(self, exc_type, exc_val, exc_tb):
         try:
